@@ -7,3 +7,5 @@ def check(ctx: Ctx) -> None:
     CT.r_handshake(ctx, "R16.1")
     CT.r_surface(ctx, "R16.2")
     CT.r_annotation_kinds(ctx, "R16.3")
+    # help and usage texts reach the client only if the parser (and every sub-parser) keeps writing into the buffer the session reads
+    CT.r_buffer(ctx, "R16.4")
